@@ -740,11 +740,11 @@ pub fn campaign(run: &mut Run, target: &str, runs: u64, n_seeds: usize) {
                     reported = true;
                 }
             }
-        } else if fname.starts_with("oom-") || fname.starts_with("timeout-") || fname.starts_with("leak-") || fname.starts_with("slow-unit-") {
+        } else if fname.starts_with("oom-") || fname.starts_with("timeout-") || fname.starts_with("leak-") {
             run.inconclusive.push(format!("{name}: libFuzzer reported {fname} (resource limit, not a verdict): {}", a.display()));
         }
     }
-    if !out.status.success() && !arts.iter().any(|a| a.file_name().and_then(|s| s.to_str()).map_or(false, |n| !n.starts_with("fuzz-"))) && !reported {
+    if !out.status.success() && !arts.iter().any(|a| a.file_name().and_then(|s| s.to_str()).map_or(false, |n| !n.starts_with("fuzz-") && !n.starts_with("slow-unit-"))) && !reported {
         let tail: Vec<&str> = log.lines().rev().take(6).collect();
         run.inconclusive.push(format!("{name}: fuzzer exited with {:?} without an artifact: {}", out.status.code(), tail.join(" | ")));
     }
@@ -752,6 +752,6 @@ pub fn campaign(run: &mut Run, target: &str, runs: u64, n_seeds: usize) {
         "name": name, "kind": "libfuzzer (cargo-fuzz, ASan, oracle inside the target)", "runs_requested": runs, "executed_units": executed,
         "seed_corpus": seeds.len(), "final_corpus": field("corp:"), "coverage_edges": field("cov:"), "features": field("ft:"),
         "oracle_evaluations": fstats.evaluations, "new_distinct_nontrivial": run.stats.nontrivial.len() - before_nt,
-        "artifacts": arts.iter().filter(|a| a.file_name().and_then(|s| s.to_str()).map_or(false, |n| !n.starts_with("fuzz-"))).count(), "wall_s": t0.elapsed().as_secs_f64(),
+        "artifacts": arts.iter().filter(|a| a.file_name().and_then(|s| s.to_str()).map_or(false, |n| !n.starts_with("fuzz-") && !n.starts_with("slow-unit-"))).count(), "wall_s": t0.elapsed().as_secs_f64(),
     }));
 }
